@@ -251,6 +251,9 @@ pub enum Inst {
     Jal(Reg, String),
     Jalr(Reg, Reg, i32),
     La(Reg, String),
+    /// the `auipc` half of a pc-relative access to a label whose low part is `lo`:
+    /// rd = address(label) - lo
+    LaUpper(Reg, String, i32),
     Ecall,
     /// csr op with register source: (op, rd, csr, rs1)
     Csr(CsrOp, Reg, u32, Reg),
@@ -272,6 +275,7 @@ impl Inst {
             Inst::Jal(rd, l) => format!("jal {}, {}", rn(*rd), l),
             Inst::Jalr(rd, rs, imm) => format!("jalr {}, {}, {}", rn(*rd), rn(*rs), imm),
             Inst::La(rd, l) => format!("la {}, {}", rn(*rd), l),
+            Inst::LaUpper(rd, l, lo) => format!("auipc {}, %pcrel_hi({}) # low part {}", rn(*rd), l, lo),
             Inst::Ecall => "ecall".to_string(),
             Inst::Csr(op, rd, csr, rs) => format!(
                 "{} {}, {}, {}",
@@ -310,6 +314,7 @@ impl Inst {
             | Inst::Jal(rd, _)
             | Inst::Jalr(rd, _, _)
             | Inst::La(rd, _)
+            | Inst::LaUpper(rd, _, _)
             | Inst::Csr(_, rd, _, _)
             | Inst::CsrI(_, rd, _, _) => *rd,
             Inst::Store(..) | Inst::Branch(..) | Inst::Ecall => return None,
@@ -331,7 +336,7 @@ impl Inst {
             Inst::Branch(_, a, b, _) => vec![*a, *b],
             Inst::Jalr(_, rs, _) => vec![*rs],
             Inst::Csr(_, _, _, rs) => vec![*rs],
-            Inst::Lui(..) | Inst::Auipc(..) | Inst::Li(..) | Inst::Jal(..) | Inst::La(..) | Inst::Ecall
+            Inst::Lui(..) | Inst::Auipc(..) | Inst::Li(..) | Inst::Jal(..) | Inst::La(..) | Inst::LaUpper(..) | Inst::Ecall
             | Inst::CsrI(..) => vec![],
         };
         let mut out = Vec::new();
@@ -949,6 +954,12 @@ pub fn step(img: &Image, m: &mut Machine, env: &mut Env) -> Result<StepInfo, Sto
                 .addr_of(l)
                 .ok_or_else(|| Stop::Fault(format!("la of unknown label {l}")))?;
             m.set(*rd, a);
+        }
+        Inst::LaUpper(rd, l, lo) => {
+            let a = img
+                .addr_of(l)
+                .ok_or_else(|| Stop::Fault(format!("address of unknown label {l}")))?;
+            m.set(*rd, a.wrapping_sub(*lo as u32));
         }
         Inst::Ecall => {
             let num = m.get(A7);
